@@ -132,3 +132,14 @@ func VerifMain() {
 	}()
 	h()
 }
+
+// verifMonitor: engine-side obligation over the monitor event streams
+// ("no-shared-writes", "no-env-access", "maps-locked"); no monitor exists natively.
+func verifMonitor(what string) {}
+func verifLocksHeld() int      { return -1 }
+func verifLockEvents() int     { return 0 }
+
+// verifMonitorAssert: an obligation over engine-only observations (lock state,
+// monitor counters). Natively nothing can be observed, so it never fails there;
+// an engine failure is confirmed by the harness's native demonstration mode.
+func verifMonitorAssert(c bool, what string) {}
